@@ -60,8 +60,15 @@ def target_key(t):
 class Mod:
     """one parsed module: its functions, classes and names bound by exactly one module-level assignment"""
 
-    def __init__(self, tree: ast.Module):
-        self.tree = tree
+    def __init__(self, tree: ast.Module, repo=None, rel: str | None = None):
+        self.tree, self.repo, self.rel = tree, repo, rel
+        # local name -> (level, module, original name) of every `from .. import ..` (module level or inside a function)
+        self.imports: dict = {}
+        for n in ast.walk(tree):
+            if isinstance(n, ast.ImportFrom):
+                for a in n.names:
+                    self.imports.setdefault(a.asname or a.name, set()).add((n.level, n.module or "", a.name))
+        self._others: dict = {}
         self.funcs = {n.name: n for n in tree.body if isinstance(n, ast.FunctionDef)}
         self.classes = {n.name: n for n in tree.body if isinstance(n, ast.ClassDef)}
         seen: dict = {}
@@ -81,6 +88,41 @@ class Mod:
                         seen.setdefault((n.asname or n.name).split(".")[0], []).extend([None, None])
         self.consts = {k: v[0] for k, v in seen.items()
                        if len(v) == 1 and v[0] is not None and k not in self.funcs and k not in self.classes}
+
+    def module_level_names(self) -> set:
+        out = set(self.funcs) | set(self.classes)
+        for st in self.tree.body:
+            for n in ast.walk(st) if not isinstance(st, (ast.FunctionDef, ast.ClassDef)) else []:
+                if isinstance(n, ast.Name) and isinstance(n.ctx, ast.Store):
+                    out.add(n.id)
+                if isinstance(n, ast.alias):
+                    out.add((n.asname or n.name).split(".")[0])
+        return out
+
+    def imported_function(self, name: str):
+        """(Mod of the defining module, FunctionDef) of a function imported with `from <module of this package> import
+        name`, when that module is a file of the tree under translation; else None"""
+        if self.repo is None or self.rel is None or len(self.imports.get(name, ())) != 1:
+            return None
+        level, module, orig = next(iter(self.imports[name]))
+        parts = module.split(".") if module else []
+        if level:
+            base = list(self.rel.split("/")[:-1])
+            base = base[:len(base) - (level - 1)] if level > 1 else base
+            parts = base + parts
+        for cand in ("/".join(parts) + ".py", "/".join(parts) + "/__init__.py"):
+            if cand == self.rel or not parts:
+                continue
+            if cand not in self._others:
+                f = self.repo / cand
+                try:
+                    self._others[cand] = Mod(ast.parse(f.read_text()), self.repo, cand) if f.is_file() else None
+                except SyntaxError:
+                    self._others[cand] = None
+            other = self._others[cand]
+            if other is not None and orig in other.funcs:
+                return other, other.funcs[orig]
+        return None
 
     def method(self, cls: str | None, name: str):
         if cls is None or cls not in self.classes:
@@ -421,7 +463,35 @@ def _callee(call: ast.Call, cx: _Cx):
         m = cx.mod.method(cx.cls, f.attr)
         if m is not None:
             return m, cx.cls, True
+    if isinstance(f, ast.Name) and f.id.startswith("_") and not f.id.startswith("__") and f.id not in cx.mod.funcs \
+            and f.id not in cx.keep:
+        # a private helper of ANOTHER module of the package: followed only when it is self-contained (every free name
+        # is a builtin, or imported from the same place under the same name in both modules)
+        got = cx.mod.imported_function(f.id)
+        if got is not None and got[1].name not in cx.keep and _self_contained(got[1], got[0], cx.mod):
+            return got[1], None, False
     return None
+
+
+def _self_contained(fn: ast.FunctionDef, home: Mod, caller: Mod) -> bool:
+    import builtins
+    local = {x.arg for x in fn.args.posonlyargs + fn.args.args + fn.args.kwonlyargs}
+    local |= {n.id for n in ast.walk(fn) if isinstance(n, ast.Name) and isinstance(n.ctx, (ast.Store, ast.Del))}
+    inner_imports = {(a.asname or a.name).split(".")[0] for n in ast.walk(fn) if isinstance(n, (ast.Import, ast.ImportFrom))
+                     for a in n.names}
+    taken = home.module_level_names()
+    for n in ast.walk(fn):
+        if isinstance(n, ast.Name) and isinstance(n.ctx, ast.Load) and n.id not in local:
+            if n.id in inner_imports:
+                continue
+            if n.id in taken or n.id in caller.module_level_names() or n.id in caller.funcs:
+                same = n.id in home.imports and home.imports.get(n.id) == caller.imports.get(n.id) \
+                    and n.id not in home.funcs and n.id not in home.classes and n.id not in home.consts
+                if not same:
+                    return False
+            elif not hasattr(builtins, n.id):
+                return False
+    return True
 
 
 def _bind_args(fn: ast.FunctionDef, call: ast.Call, is_method: bool):
